@@ -75,12 +75,22 @@ void EpollLoop::runLoop(Mode mode)
         RECORD_SCOPE();
         beginLoopProcess();
 
+        //! 先给本轮所有就绪fd的共享数据各加一次引用，防止它在轮到自己之前，
+        //! 被更早的回调释放回对象池（甚至被分配给别的fd）
+        //! (hold a reference on every record reported in this pass, so that a timer or event callback
+        //!  served earlier cannot give it back to the pool, or hand it to another fd, before its turn)
+        for (int i = 0; i < fds; ++i)
+            ++static_cast<EpollFdSharedData*>(events.at(i).data.ptr)->ref;
+
         handleExpiredTimers();
 
         for (int i = 0; i < fds; ++i) {
             epoll_event &ev = events.at(i);
             EpollFdEvent::OnEventCallback(ev.events, ev.data.ptr);
         }
+
+        for (int i = 0; i < fds; ++i)
+            unrefFdSharedData(static_cast<EpollFdSharedData*>(events.at(i).data.ptr)->fd);
 
         //handleRunInLoopFunc();
         handleNextFunc();
